@@ -129,8 +129,14 @@ def run(ctx):
     cons = msm.consistency_fn(ctx, 'R-C05-2')
     if cons is not None:
         crow = guard_table(ctx, cons)
-        d1g = [a for r in crow for a in r['atoms'] if a[0] == 'cmp' and a[1] == 'Eq' and 'd1' in a[2] + a[3] and 'extension_degree' in a[2] + a[3]]
-        rep.check(len(d1g) >= 2, 'R-C05-2', 'R-C05-2/len-d1', 'd1 is zipped with the blinding-generator scalars under len(d1) == extension degree guards (first and every other member)',
+        def aligned(r, a):
+            fa = [x[1] for x in r['ctx'] if x[0] == 'forall' and 'p1' in x[1]]
+            ctx_skip = any('skip(' in f for f in fa)
+            whole = any(f.startswith('skip(') for f in fa) or not ctx_skip
+            sides = [x for x in a[2:4] if 'each(p2)' in x]
+            return whole and all(('<skip>' in x) == ctx_skip for x in sides)
+        d1g = [a for r in crow for a in r['atoms'] if a[0] == 'cmp' and a[1] == 'Eq' and 'd1' in a[2] + a[3] and 'extension_degree' in a[2] + a[3] and aligned(r, a)]
+        rep.check(len(d1g) >= 2, 'R-C05-2', 'R-C05-2/len-d1', 'd1 is zipped with the blinding-generator scalars under len(d1) == extension degree guards (first and every other member, proof i paired with statement i)',
                   'only %d guard(s) tie len(d1) to the extension degree' % len(d1g), ctx.where(cons))
     init = ctx.fn('RangeStatement::<P>::init', 'R-C05-2')
     if init is not None:
